@@ -14,7 +14,7 @@ Theorem C03_completion_refuted :
   exists w ops e, go w ops = Some e /\ open_under_completed e = true /\ pstate e = SCompleted.
 Proof. exact completed_over_open_refutes. Qed.
 
-Theorem C03_partial_root_mirrored : forall site e s, is_completed s = true -> pstate (set_state site e 0 s) = s.
+Theorem C03_partial_root_mirrored : forall site e s, 0 < length (tasks e) -> is_completed s = true -> pstate (set_state site e 0 s) = s.
 Proof. exact root_terminal_mirrored. Qed.
 Theorem C03_partial_only_root_mirrored : forall site e i s, i <> 0 -> pstate (set_state site e i s) = pstate e.
 Proof. exact other_writes_keep_pstate. Qed.
